@@ -29,6 +29,19 @@ CHECKS = {
              "differential run as C01 with a scribbling writer (0xEE over every region at once), slice copies compared at unmap, and ASan.",
         note=TB + "Same modelling assumptions as C01. A consumer reading after its unmap is out of scope. Axioms: none.",
         technique="Coq invariant proof (region/unread disjointness, cell stability); differential with scribbling writer + ASan"),
+    "C03": dict(
+        family="ring", design="6.3",
+        text="Machine-checked proof over an interleaving model of channel.c's blocking protocol (one transition per block between "
+             "scheduling points; every schedule of any length, with or without spurious wake-ups): no lost wake-up (a writer asleep "
+             "without a pending notification still has a true wait condition), a parked writer whose request can proceed has been "
+             "notified and returns on its next own step, refusal never leaves the writer asleep, the lock is always released, a request "
+             "below capacity fits once readers are drained, and readers drain within two rounds. Tied to the code on every run by "
+             "executing the real channel.c under a deterministic coroutine scheduler (harness/vplatform) and the extracted model in "
+             "lock-step on thousands of scripts x schedules; the oracle probes every deadlock with a spurious wake-up.",
+        note=TB + "Modelled, not verified: pthread mutex/condvar semantics (vplatform replaces platform.c: mutual exclusion, atomic "
+             "release-and-wait, broadcast wakes all waiters), OS fairness (eventual scheduling of an enabled thread), sequential consistency at "
+             "block granularity (C11 races / x86-TSO not modelled), one writer thread, readers registered before the concurrent phase. Axioms: none.",
+        technique="Coq invariant over an interleaving system (all schedules) + bounded-progress lemmas; lock-step replay of the real code under a deterministic scheduler"),
 }
 
 NOT_APPLICABLE = []
